@@ -196,6 +196,109 @@ theorem path_resolves {t : Tree} (h : WF t) (n : Ptr) {v : Tree} (hv : deref t n
     rw [pathOf_cons hp hv, resolve_append, ih hp]
     exact step_child h hp hk
 
+/-! ### path length = depth (every loop iteration of valuePath contributes exactly one component) -/
+
+theorem depth_eq_length (n : Ptr) : depth n = n.length := by
+  induction n with
+  | nil => rfl
+  | cons k up ih => simp [depth, ih]
+
+theorem depth_eq_parents_length (n : Ptr) : depth n = (parents n).length := by
+  cases n with
+  | nil => rfl
+  | cons k up => simp [parents, parent, recurseBreak_length', depth_eq_length]
+where
+  recurseBreak_length' (n : Ptr) : (recurseBreak n).length = n.length + 1 := by
+    induction n with
+    | nil => rfl
+    | cons k up ih => simp [recurseBreak, ih]
+
+/-- in a well-formed tree a value that has a child is not a leaf, so its child contributes one component -/
+theorem part_length {p v : Tree} (hp : p.wfb = true) {k : Nat} (hk : p.kids[k]? = some v) :
+    (part p v).length = 1 := by
+  have hl := (wf_local hp).1
+  unfold localOK at hl
+  unfold part
+  cases hkind : p.info.kind with
+  | leaf =>
+    rw [hkind] at hl
+    simp at hl
+    rw [hl] at hk; simp at hk
+  | struct => rfl
+  | array => rfl
+
+theorem pathOf_length {t : Tree} (h : WF t) (n : Ptr) {v : Tree} (hv : deref t n = some v) :
+    (pathOf t n).length = depth n := by
+  induction n generalizing v with
+  | nil => simp [pathOf, valuePathGo, depth]
+  | cons k up ih =>
+    obtain ⟨p, hp, hk⟩ := deref_cons_some hv
+    rw [pathOf_cons hp hv, List.length_append, ih hp, part_length (wf_deref h hp) hk]
+    rfl
+
+/-- the path of a child is the path of its parent plus exactly one component -/
+theorem pathOf_child_length {t : Tree} (h : WF t) {k : Nat} {up : Ptr} {v : Tree}
+    (hv : deref t (k :: up) = some v) : (pathOf t (k :: up)).length = (pathOf t up).length + 1 := by
+  obtain ⟨p, hp, _⟩ := deref_cons_some hv
+  rw [pathOf_length h _ hv, pathOf_length h _ hp]; rfl
+
+/-! ### trees of every depth exist (non-vacuity of the depth theorems for ALL d, not for a sample) -/
+
+def mkInfo (name : String) (index : Int) (kind : Kind) : Info :=
+  { name := name, index := index, isRoot := false, hasFormat := false, kind := kind }
+
+/-- a chain of `d` nested compounds of alternating kind below a value called `name`: every struct has a leaf
+    `s` and then the next compound under the key `a b` (needs quoting), every array has a leaf element and then
+    the next compound at index 1 (a non-zero index); the chain ends in a leaf -/
+def chain (name : String) (index : Int) : Nat → Bool → Tree
+  | 0, _ => .mk (mkInfo name index .leaf) []
+  | d + 1, true => .mk (mkInfo name index .array) [.mk (mkInfo "e" 0 .leaf) [], chain "e" 1 d false]
+  | d + 1, false => .mk (mkInfo name index .struct) [.mk (mkInfo "s" (-1) .leaf) [], chain "a b" (-1) d true]
+
+theorem chain_name (name : String) (index : Int) (d : Nat) (a : Bool) : (chain name index d a).info.name = name := by
+  cases d with
+  | zero => rfl
+  | succ d => cases a <;> rfl
+
+theorem chain_index (name : String) (index : Int) (d : Nat) (a : Bool) : (chain name index d a).info.index = index := by
+  cases d with
+  | zero => rfl
+  | succ d => cases a <;> rfl
+
+theorem chain_wf (name : String) (index : Int) (d : Nat) (a : Bool) : (chain name index d a).wfb = true := by
+  induction d generalizing name index a with
+  | zero => simp [chain, wfb_mk, localOK, mkInfo, wfbList]
+  | succ d ih =>
+    cases a with
+    | true =>
+      simp [chain, wfb_mk, localOK, mkInfo, wfbList, indexFrom, chain_index, ih]
+      rfl
+    | false =>
+      simp [chain, wfb_mk, localOK, mkInfo, wfbList, namesNodup, chain_name, ih]
+      show ¬ "a b" = "s"
+      decide
+
+/-- following a pointer whose OUTERMOST step is `k` = going to child `k` of the top first -/
+theorem deref_append (t : Tree) (n : Ptr) (k : Nat) :
+    deref t (n ++ [k]) = (t.kids[k]?).bind (fun c => deref c n) := by
+  induction n with
+  | nil => simp [deref]
+  | cons j up ih =>
+    rw [List.cons_append, deref_cons, ih]
+    cases t.kids[k]? with
+    | none => rfl
+    | some c => simp [deref_cons]
+
+theorem chain_deep (name : String) (index : Int) (d : Nat) (a : Bool) :
+    ∃ v, deref (chain name index d a) (List.replicate d 1) = some v ∧ v.info.kind = .leaf := by
+  induction d generalizing name index a with
+  | zero => exact ⟨_, rfl, rfl⟩
+  | succ d ih =>
+    rw [List.replicate_succ', deref_append]
+    cases a with
+    | true => simpa [chain, Tree.kids] using ih "e" 1 false
+    | false => simpa [chain, Tree.kids] using ih "a b" (-1) true
+
 /-! ### parent contains the child under its reported name / index -/
 
 theorem parent_contains {t : Tree} (h : WF t) {k : Nat} {up : Ptr} {v : Tree} (hv : deref t (k :: up) = some v) :
